@@ -15,7 +15,9 @@
   environments that bind scalars (undefined, null, booleans, ints, floats, strings).
 
   Missing for the full `eval_refines_spec` (kept out so that the theorem is true and proved):
-    * `< > <= >=` need "int → float is order-exact below 2^53" for the soft-float (not proved);
+    * `< > <= >=` are covered by `eval_refines_spec_with_ordering` under the explicit hypothesis
+      `OrdExact` ("int → float is order-exact below 2^53" for the soft-float: validated by the C20
+      correspondence, not proved); `eval_refines_spec_partial` needs no hypothesis and excludes them;
     * collections: data-reference accesses, list / map literals, functions — and printing a map, where
       the real code (and hence the model) DEVIATES from Appendix A (items sorted as `k: v` strings
       instead of by key; an undefined member printed as "undefined"; `$l[-1]` an error) — see the
@@ -27,12 +29,13 @@ namespace SoyVerif.Props.C01
 open SoyVerif SoyVerif.Model SoyVerif.Model.Eval SoyVerif.Refine
 open SoyVerif.Spec.Eval (Val Out)
 
-def opOk : BinOp → Bool
-  | .lt | .le | .gt | .ge => false
+/-- are the ordering comparisons part of the fragment? -/
+def opOk (ord : Bool) : BinOp → Bool
+  | .lt | .le | .gt | .ge => ord
   | _ => true
 
-/-- the scalar operator fragment -/
-def frag : Expr → Bool
+/-- the scalar operator fragment, with (`ord = true`) or without the four ordering comparisons -/
+def fragO (ord : Bool) : Expr → Bool
   | .null _ => true
   | .bool _ _ => true
   | .int _ v => decide (-2 ^ 63 ≤ v ∧ v < 2 ^ 63)
@@ -40,11 +43,14 @@ def frag : Expr → Bool
   | .str _ _ _ => true
   | .global _ _ => true
   | .dataRef _ key .nil => key != sIj
-  | .not _ a => frag a
-  | .neg _ a => frag a
-  | .bin op _ a b => opOk op && frag a && frag b
-  | .tern _ c a b => frag c && frag a && frag b
+  | .not _ a => fragO ord a
+  | .neg _ a => fragO ord a
+  | .bin op _ a b => opOk ord op && fragO ord a && fragO ord b
+  | .tern _ c a b => fragO ord c && fragO ord a && fragO ord b
   | _ => false
+
+/-- the fragment without `< > <= >=` (no hypothesis about the soft-float needed) -/
+def frag (e : Expr) : Bool := fragO false e
 
 /-- the model's environment and the specification's bind the same scalars -/
 structure EnvRel (m : EEnv) (s : Spec.Eval.Env) : Prop where
@@ -73,13 +79,13 @@ include hr
 
 /-- the strict operators (`+ - * / %`) given the two operands' simulations -/
 theorem strict_sim (op : BinOp) (p : Nat) (a b : Expr)
-    (hop : op = .add ∨ op = .sub ∨ op = .mul ∨ op = .div ∨ op = .mod)
+    (hop : op = .add ∨ op = .sub ∨ op = .mul ∨ op = .div ∨ op = .mod ∨ op = .lt ∨ op = .le ∨ op = .gt ∨ op = .ge)
     (harith : ∀ x y, Scalar x = true → Scalar y = true → ArithSpec op x y)
     (ha : Sim m s a) (hb : Sim m s b) : Sim m s (.bin op p a b) := by
   intro n
   have hS : Spec.Eval.eval s (.bin op p a b) =
       (Spec.Eval.eval s a).bind fun va => (Spec.Eval.eval s b).bind fun vb => Spec.Eval.binop op va vb := by
-    rcases hop with rfl | rfl | rfl | rfl | rfl <;> rw [Spec.Eval.eval] <;> first | rfl | (intro h; cases h)
+    rcases hop with rfl | rfl | rfl | rfl | rfl | rfl | rfl | rfl | rfl <;> rw [Spec.Eval.eval] <;> first | rfl | (intro h; cases h)
   have hM : evalE m (.bin op p a b) n =
       (match evalE m a n with
        | .ok .undefined _ => .err
@@ -92,7 +98,7 @@ theorem strict_sim (op : BinOp) (p : Nat) (a b : Expr)
            | none => .err
          | .err => .err
        | .err => .err) := by
-    rcases hop with rfl | rfl | rfl | rfl | rfl <;> rw [evalE] <;> first | rfl | (intro h; cases h)
+    rcases hop with rfl | rfl | rfl | rfl | rfl | rfl | rfl | rfl | rfl <;> rw [evalE] <;> first | rfl | (intro h; cases h)
   rw [hS, hM]
   refine ⟨fun v hv => ?_, fun herr => ?_⟩
   · obtain ⟨va, hva, hv⟩ := bind_val hv
@@ -120,12 +126,12 @@ theorem strict_sim (op : BinOp) (p : Nat) (a b : Expr)
         · cases ma <;> simp [hmb] <;> cases mb <;> simp_all
 
 /-- the model refines the specification on the scalar operator fragment -/
-theorem eval_refines_spec_partial : (e : Expr) → frag e = true → Sim m s e
+theorem eval_refines_spec_ord (ord : Bool) (hord : ord = true → OrdExact) : (e : Expr) → fragO ord e = true → Sim m s e
   | .null _, _ => by intro n; simp [Spec.Eval.eval, evalE, absV, Scalar]
   | .bool _ b, _ => by intro n; simp [Spec.Eval.eval, evalE, absV, Scalar]
   | .int _ v, hf => by
     intro n
-    simp only [frag, decide_eq_true_eq] at hf
+    simp only [fragO, decide_eq_true_eq] at hf
     simp [Spec.Eval.eval, evalE, absV, Scalar, Int64.toInt_ofInt_of_le hf.1 hf.2]
   | .float _ bits, _ => by intro n; simp [Spec.Eval.eval, evalE, absV, Scalar]
   | .str _ _ v, _ => by intro n; simp [Spec.Eval.eval, evalE, absV, Scalar]
@@ -142,7 +148,7 @@ theorem eval_refines_spec_partial : (e : Expr) → frag e = true → Sim m s e
       simp
   | .dataRef _ key .nil, hf => by
     intro n
-    simp only [frag, bne_iff_ne, ne_eq] at hf
+    simp only [fragO, bne_iff_ne, ne_eq] at hf
     have h1 : (key == sIj) = false := by simpa using hf
     have h2 : (key == Spec.Eval.sIj) = false := h1
     rw [Spec.Eval.eval, evalE]
@@ -150,7 +156,7 @@ theorem eval_refines_spec_partial : (e : Expr) → frag e = true → Sim m s e
     simp [hr.vars key, hr.scalar key]
   | .not _ a, hf => by
     intro n
-    have ih := eval_refines_spec_partial a (by simpa [frag] using hf) n
+    have ih := eval_refines_spec_ord ord hord a (by simpa [fragO] using hf) n
     rw [Spec.Eval.eval, evalE]
     refine ⟨fun v hv => ?_, fun herr => ?_⟩
     · obtain ⟨va, hva, hv⟩ := bind_val hv
@@ -163,7 +169,7 @@ theorem eval_refines_spec_partial : (e : Expr) → frag e = true → Sim m s e
       · simp at h
   | .neg _ a, hf => by
     intro n
-    have ih := eval_refines_spec_partial a (by simpa [frag] using hf) n
+    have ih := eval_refines_spec_ord ord hord a (by simpa [fragO] using hf) n
     rw [Spec.Eval.eval, evalE]
     refine ⟨fun v hv => ?_, fun herr => ?_⟩
     · obtain ⟨va, hva, hv⟩ := bind_val hv
@@ -202,8 +208,8 @@ theorem eval_refines_spec_partial : (e : Expr) → frag e = true → Sim m s e
         | _ => rfl
   | .tern _ c a b, hf => by
     intro n
-    simp only [frag, Bool.and_eq_true] at hf
-    have ihc := eval_refines_spec_partial c hf.1.1 n
+    simp only [fragO, Bool.and_eq_true] at hf
+    have ihc := eval_refines_spec_ord ord hord c hf.1.1 n
     rw [Spec.Eval.eval, evalE]
     refine ⟨fun v hv => ?_, fun herr => ?_⟩
     · obtain ⟨vc, hvc, hv⟩ := bind_val hv
@@ -212,8 +218,8 @@ theorem eval_refines_spec_partial : (e : Expr) → frag e = true → Sim m s e
       simp only
       rw [← habs, truthy_abs mc hsc] at hv
       split at hv
-      · rename_i ht; simp only [ht, if_true]; exact (eval_refines_spec_partial a hf.1.2 n1).1 v hv
-      · rename_i ht; simp only [ht, if_false]; exact (eval_refines_spec_partial b hf.2 n1).1 v hv
+      · rename_i ht; simp only [ht, if_true]; exact (eval_refines_spec_ord ord hord a hf.1.2 n1).1 v hv
+      · rename_i ht; simp only [ht, if_false]; exact (eval_refines_spec_ord ord hord b hf.2 n1).1 v hv
     · rcases bind_err herr with h | ⟨vc, hvc, h⟩
       · rw [ihc.2 h]
       · obtain ⟨mc, n1, hmc, habs, hsc⟩ := ihc.1 vc hvc
@@ -221,22 +227,30 @@ theorem eval_refines_spec_partial : (e : Expr) → frag e = true → Sim m s e
         simp only
         rw [← habs, truthy_abs mc hsc] at h
         split at h
-        · rename_i ht; simp only [ht, if_true]; exact (eval_refines_spec_partial a hf.1.2 n1).2 h
-        · rename_i ht; simp only [ht, if_false]; exact (eval_refines_spec_partial b hf.2 n1).2 h
+        · rename_i ht; simp only [ht, if_true]; exact (eval_refines_spec_ord ord hord a hf.1.2 n1).2 h
+        · rename_i ht; simp only [ht, if_false]; exact (eval_refines_spec_ord ord hord b hf.2 n1).2 h
   | .bin op p a b, hf => by
-    simp only [frag, Bool.and_eq_true] at hf
-    have iha := eval_refines_spec_partial a hf.1.2
-    have ihb := eval_refines_spec_partial b hf.2
+    simp only [fragO, Bool.and_eq_true] at hf
+    have iha := eval_refines_spec_ord ord hord a hf.1.2
+    have ihb := eval_refines_spec_ord ord hord b hf.2
     cases op with
     | add => exact strict_sim hr .add p a b (by simp) add_refines iha ihb
     | sub => exact strict_sim hr .sub p a b (by simp) sub_refines iha ihb
     | mul => exact strict_sim hr .mul p a b (by simp) mul_refines iha ihb
     | div => exact strict_sim hr .div p a b (by simp) div_refines iha ihb
     | mod => exact strict_sim hr .mod p a b (by simp) mod_refines iha ihb
-    | lt => simp [opOk] at hf
-    | le => simp [opOk] at hf
-    | gt => simp [opOk] at hf
-    | ge => simp [opOk] at hf
+    | lt =>
+      have ho : ord = true := by simpa [opOk] using hf.1.1
+      exact strict_sim hr .lt p a b (by simp) (cmp_refines (hord ho) .lt (by simp)) iha ihb
+    | le =>
+      have ho : ord = true := by simpa [opOk] using hf.1.1
+      exact strict_sim hr .le p a b (by simp) (cmp_refines (hord ho) .le (by simp)) iha ihb
+    | gt =>
+      have ho : ord = true := by simpa [opOk] using hf.1.1
+      exact strict_sim hr .gt p a b (by simp) (cmp_refines (hord ho) .gt (by simp)) iha ihb
+    | ge =>
+      have ho : ord = true := by simpa [opOk] using hf.1.1
+      exact strict_sim hr .ge p a b (by simp) (cmp_refines (hord ho) .ge (by simp)) iha ihb
     | eq =>
       intro n
       have hS : Spec.Eval.eval s (.bin .eq p a b) =
@@ -390,10 +404,21 @@ theorem eval_refines_spec_partial : (e : Expr) → frag e = true → Sim m s e
           | int x => simp [absV] at herr
           | float x => simp [absV] at herr
           | str x => simp [absV] at herr
-  | .func .., hf => by simp [frag] at hf
-  | .list .., hf => by simp [frag] at hf
-  | .map .., hf => by simp [frag] at hf
-  | .dataRef _ _ (.cons _ _), hf => by simp [frag] at hf
+  | .func .., hf => by simp [fragO] at hf
+  | .list .., hf => by simp [fragO] at hf
+  | .map .., hf => by simp [fragO] at hf
+  | .dataRef _ _ (.cons _ _), hf => by simp [fragO] at hf
+
+/-- the model refines the specification on the scalar operator fragment (no ordering comparisons, no
+    hypothesis) -/
+theorem eval_refines_spec_partial (e : Expr) (hf : frag e = true) : Sim m s e :=
+  eval_refines_spec_ord hr false (fun h => by cases h) e hf
+
+/-- … and with `< > <= >=` on int/int, int/float and float/float operands, given that int → float
+    conversion is order-exact below 2^53 (`OrdExact`: a statement about the soft-float Base/F64 that is
+    validated bit for bit by the C20 correspondence but not proved) -/
+theorem eval_refines_spec_with_ordering (hx : OrdExact) (e : Expr) (hf : fragO true e = true) : Sim m s e :=
+  eval_refines_spec_ord hr true (fun _ => hx) e hf
 end
 
 /-! ### an erroring print writes nothing -/
@@ -493,7 +518,14 @@ example : ∃ mv n', evalE m0 e0 7 = .ok mv n' ∧ absV mv = .str [97, 51] := by
   obtain ⟨mv, n', h1, h2, _⟩ := (eval_refines_spec_partial rel0 e0 (by decide) 7).1 (.str [97, 51]) (by rfl)
   exact ⟨mv, n', h1, h2⟩
 
-/-- ordering non-numbers is outside the fragment; `'a' - 1` is inside and is an error on both sides -/
+/-- with the ordering comparisons: `$x < 4 ? 'lt' : 'ge'` -/
+def e1 : Expr := .tern 0 (.bin .lt 0 x0 (.int 0 4)) (.str 0 [] [108, 116]) (.str 0 [] [103, 101])
+
+example (hx : OrdExact) : ∃ mv n', evalE m0 e1 7 = .ok mv n' ∧ absV mv = .str [108, 116] := by
+  obtain ⟨mv, n', h1, h2, _⟩ := (eval_refines_spec_with_ordering rel0 hx e1 (by decide) 7).1 (.str [108, 116]) (by rfl)
+  exact ⟨mv, n', h1, h2⟩
+
+/-- ordering non-numbers is an error on both sides; `'a' - 1` is inside and is an error on both sides -/
 example : evalE m0 (.bin .sub 0 (.str 0 [] [97]) (.int 0 1)) 7 = .err :=
   (eval_refines_spec_partial rel0 _ (by decide) 7).2 (by rfl)
 
